@@ -8,7 +8,8 @@ from vk.specs import universe as U
 LEVEL = "other"
 TECHNIQUE = ("contract-based deductive verification of approximate_partition (pyvc VCs with loop invariant incl. the floor-division covering fact, z3; all inputs); "
              "runtime contracts on TTNO construction against an independent tree contraction, the dense Kronecker sum and the chain MPO over enumerated "
-             "tree shapes / groupings / dummy placements (bounded stand-in)")
+             "tree shapes / groupings / dummy placements (bounded stand-in); Engine S: construct_symbolic_ttno executed with indeterminate coefficients on "
+             "every rooted ordered tree shape of the universe, multiplied out over the tree and decided exactly (all coefficient values)")
 
 
 def real_terms(model, rng, n):
@@ -144,6 +145,8 @@ def check(run):
         return (not ok), {"call": f"approximate_partition({seq}, {g})", "result": r}
     verify(run, TB.REL, TB.approximate_partition, fingerprint=TB.FINGERPRINT, replay=replay)
     run_cases(run, w_partition, [(L, g) for L in range(0, 14) for g in range(1, 6)])
+    from props import C01_sym
+    C01_sym.prove_tree(run)
     seeds = list(range(run.seed * 100, run.seed * 100 + (3 if run.tier == "quick" else 10)))
     cases = []
     for s in seeds:
